@@ -355,6 +355,83 @@ def check_datagroup_histories(run, tree):
         run.ob(construct, bool(ok), "src/osyris/core/datagroup.py", detail, family)
 
 
+class EqMember(Model):
+    """a group member for the equality fold: `content` names what it holds; != gives an element-wise difference token"""
+    kinds = ("Array",)
+
+    def __init__(self, content, vector=False):
+        self.content, self.vector, self.shape, self.name = content, vector, (4,), ""
+
+    def __ne__(self, o):
+        return EqDiff(getattr(o, "content", None) != self.content)
+
+    def __eq__(self, o):
+        return EqDiff(getattr(o, "content", None) != self.content, negate=True)
+
+    __hash__ = None
+
+
+class EqDiff(Model):
+    def __init__(self, differs, negate=False):
+        self.differs, self.negate = differs, negate
+
+    @property
+    def norm(self):
+        return self
+
+    @property
+    def values(self):
+        return self
+
+    def __invert__(self):
+        return EqDiff(self.differs, not self.negate)
+
+
+def check_group_equality(run, tree):
+    """Datagroup.__eq__ interpreted on real Datagroup objects (keys(), items(), __getitem__ are the class's own): same keys in ANY
+    insertion order with element-wise equal members -> equal; any other key set or any differing element -> unequal"""
+    hooks = core_hooks()
+    hooks["ext"] = dict(hooks.get("ext", {}))
+    hooks["ext"]["numpy.any"] = lambda d, *a, **k: (d.differs if not d.negate else True) if isinstance(d, EqDiff) else (_ for _ in ()).throw(Unsupported("np.any(%r)" % (d,)))
+    hooks["ext"]["numpy.all"] = lambda d, *a, **k: ((not d.differs) if d.negate else d.differs) if isinstance(d, EqDiff) else (_ for _ in ()).throw(Unsupported("np.all(%r)" % (d,)))
+    fi = tree.method(tree.cls(DG_Q), "__eq__")
+    if fi is None:
+        run.violated(DG_Q + ".__eq__", "src/osyris/core/datagroup.py", "__eq__ is not defined", "g1 == g2 is object identity")
+        return
+    run.analysed(fi)
+
+    def grp(*members):
+        g = new_group(tree, hooks)
+        for k, content in members:
+            call_method(tree, hooks, g, "__setitem__", k, EqMember(content))
+        return g
+    cases = [
+        ("same keys, same order, equal members", [("a", 1), ("b", 2), ("v", 3)], [("a", 1), ("b", 2), ("v", 3)], True),
+        ("same keys inserted in another order, equal members", [("a", 1), ("b", 2), ("v", 3)], [("v", 3), ("a", 1), ("b", 2)], True),
+        ("same keys in another order, one member differs", [("a", 1), ("b", 2), ("v", 3)], [("v", 3), ("b", 9), ("a", 1)], False),
+        ("last member differs", [("a", 1), ("b", 2)], [("a", 1), ("b", 9)], False),
+        ("first member differs", [("a", 1), ("b", 2)], [("a", 9), ("b", 2)], False),
+        ("the other group has one more key", [("a", 1)], [("a", 1), ("b", 2)], False),
+        ("this group has one more key", [("a", 1), ("b", 2)], [("a", 1)], False),
+        ("disjoint keys, equal contents", [("a", 1)], [("b", 1)], False),
+        ("both empty", [], [], True),
+    ]
+    for label, m1, m2, want in cases:
+        construct = "%s.__eq__[%s]" % (DG_Q, label)
+        try:
+            g1, g2 = grp(*m1), grp(*m2)
+            ev = _ev(tree, hooks, DG_Q + ".__init__")
+            try:
+                got = ev.invoke(fi, [g1, g2], {}, None)
+                got = ev.truth(got)
+                detail = "returns %s (required %s)" % (got, want)
+            except (Raised, ProgramRaised) as e:
+                got, detail = None, "raises %s (required %s)" % (e, want)
+            run.ob(construct, got is want, fi.where(), detail, "two Datagroups with %s compare %s" % (label, "unequal" if want else "equal"))
+        except ERR as e:
+            run.unresolved(construct, fi.where(), "cannot fold: %s" % e)
+
+
 def make_group(tree, hooks, with_vector=True):
     g = new_group(tree, hooks)
     call_method(tree, hooks, g, "__setitem__", "a", A("a", 4, "m"))
